@@ -452,7 +452,8 @@ Record qtraj (x1 x2 : xst) : Prop := mkQ {
   q_keep : s_p (x_sys x2) = PNotify true \/ (exists f, s_p (x_sys x2) = PSyncing true f) ->
            s_p (x_sys x1) = PNotify true \/ s_p (x_sys x1) = s_p (x_sys x2);
   q_sleep1 : is_sleep (s_p (x_sys x2)) = true -> s_p (x_sys x1) = s_p (x_sys x2);
-  q_sleep2 : is_sleep (s_p (x_sys x1)) = true -> s_p (x_sys x2) = s_p (x_sys x1)
+  q_sleep2 : is_sleep (s_p (x_sys x1)) = true -> s_p (x_sys x2) = s_p (x_sys x1);
+  q_notify : forall k, s_p (x_sys x1) = PNotify k -> s_p (x_sys x2) = PNotify k \/ s_p (x_sys x2) = PSyncing k false
 }.
 
 Lemma qtraj_refl x : qtraj x x.
@@ -476,7 +477,7 @@ Proof.
   intros Q G Hi Ht. destruct (tstep_ok _ _ _ _ _ Ht) as [Hs [_ [_ Hsy]]].
   pose proof (good_inv1 _ _ _ _ _ _ G) as II.
   pose proof (internal_act_tr _ _ _ _ Hs) as Htr.
-  destruct Q as [Q1 Q2 Q3 Q4 Q5 Q6 Q7 Q8].
+  destruct Q as [Q1 Q2 Q3 Q4 Q5 Q6 Q7 Q8 Q9].
   destruct t; cbn [step t_internal] in *.
   - pose proof (rstep_frame _ _ _ _ II Hs) as Ep. pose proof (rstep_cancel _ _ _ _ II Hs) as Ec.
     destruct (rstep_frame_t _ _ _ _ II Hs) as [El [_ En]].
@@ -485,6 +486,7 @@ Proof.
     + rewrite Ep. exact Q6.
     + rewrite Ep. exact Q7.
     + rewrite Ep. exact Q8.
+    + rewrite Ep. exact Q9.
   - destruct (pstep_shape _ _ _ _ II Hs) as [Ec [En [Sh Hl]]].
     unfold p_internal, p_in_io, p_in_timer in Hi. unfold internal_ans in Sh. cbn [a_ok a_time] in Sh.
     unfold is_syncing, is_sleep in *.
@@ -525,6 +527,9 @@ Proof.
       * destruct Sh.
     + intros Hk. pose proof (Q8 Hk) as E. rewrite <- E in Hk. exfalso.
       destruct pc; cbn in Hi, Hk; discriminate.
+    + intros k Hk. destruct (Q9 k Hk) as [E|E].
+      * rewrite E in Sh. right. exact Sh.
+      * exfalso. rewrite E in Hns. discriminate Hns.
 Qed.
 
 Lemma quiesce_traj f rw x1 x2 : good (x_sys x1) -> quiesce cfg f rw x1 = Ok x2 -> qtraj x1 x2.
